@@ -409,6 +409,26 @@ Definition decode_pdu (t : ty) (bs : list N) : res val :=
   end.
 
 (* ---------------------------------------------------------------------------------------------- *)
+(* Any.cast_out(klass) (constructeddata.py:1299-1372): interpret the tags an Any holds as a value of the
+   given type; everything must be consumed ("incomplete cast"), an atomic type wants exactly one tag.
+   Like decode it is a pure function here: it returns a value and the tag list is what it was — the
+   correspondence compares the implementation's Any.tagList AFTER the call(s) with the model's input. *)
+Definition cast_out (t : ty) (ts : list tag) : res val :=
+  match t with
+  | TAtom k =>
+      match ts with
+      | [x] => do _ <- atom_check k x; Ok (VAtom x)
+      | _ => Err DecodingError
+      end
+  | TAnyAtomic =>
+      match ts with
+      | [x] => do o <- anyatomic_obj x; match o with Some v => Ok v | None => Ok (VTags []) end
+      | _ => Err DecodingError
+      end
+  | _ => do (v, rest) <- decode t ts; match rest with [] => Ok v | _ => Err DecodingError end
+  end.
+
+(* ---------------------------------------------------------------------------------------------- *)
 (* canonical outputs for the correspondence check: the shape of a value (leaves reduced to their
    application tag number; Any keeps its tags) *)
 Fixpoint canon_val (v : val) : list Z :=
@@ -421,4 +441,7 @@ Fixpoint canon_val (v : val) : list Z :=
   | VChoice i w => 4%Z :: Z.of_nat i :: canon_val w
   | VList vs => 5%Z :: zlen vs :: flat_map canon_val vs
   end.
-Definition canon_dec (p : val * list tag) : list Z := canon_val (fst p) ++ [zlen (snd p)].
+Definition canon_dec (p : val * list tag) : list Z := canon_val (fst p) ++ canon_tags (snd p).
+(* history "look twice, then look at the Any": both results and the (unchanged) tag list *)
+Definition canon_cast (t : ty) (ts : list tag) : list Z :=
+  canon_res canon_val (cast_out t ts) ++ canon_res canon_val (cast_out t ts) ++ canon_tags ts.
